@@ -40,7 +40,7 @@ def setup(ctx):
         "with TOFU off the store must stay untouched; unparsable certificates are then not judged",
     ]
     ctx.require("monitor", "l3_calls", 400)
-    ctx.require("monitor", "changed_cert_calls", 60)
+    ctx.require("monitor", "changed_cert_calls", 30)
     ctx.require("monitor", "tampered_cert_calls", 20)
     ctx.require("monitor", "table_comparisons", 400)
     ctx.require("monitor", "l0_steps", 2000)
